@@ -2,6 +2,7 @@ package props
 
 import (
 	"astverif/demuxrules"
+	"astverif/extrarules"
 	"astverif/ownership"
 )
 
@@ -25,6 +26,14 @@ func c07(c *Ctx) {
 		"isPESPayload and encoding/binary.BigEndian.UintN only read their argument",
 		"the audited reads-only callee table of package ownership (rule S3, as in C16): astikit BitsWriter.Write/WriteBytesN, io.Writer/io.Reader contracts"}
 	demuxrules.New(c.P, r).C07()
+	// the pool and its per-PID accumulators live for the whole pass: replacing the pool or removing an accumulator while
+	// demuxing (because of a parse error on, or a table delivered for, another PID) loses the unit a PID is assembling
+	extrarules.WhoMayStoreField(c.P, r, "I8", "Demuxer.packetPool/stored-by", "Demuxer", "packetPool", []string{"NewDemuxer", "(*Demuxer).Rewind"}, 2, nil, "stores",
+		"replacing the packet pool while demuxing discards the pending units of every PID")
+	extrarules.WhoMayStoreField(c.P, r, "I8", "packetPool.b/stored-by", "packetPool", "b", []string{"newPacketPool"}, 1, nil, "stores",
+		"the per-PID accumulator map is created once per pool")
+	extrarules.WhoMayMutateMapField(c.P, r, "I8", "packetPool.b/mutated-by", "packetPool", "b", []string{"(*packetPool).addUnlocked"}, []string{"(*packetPool).dumpUnlocked"}, 1, 1,
+		"an accumulator removed outside the end-of-stream drain loses the unit its PID is assembling because of what happened on another PID")
 	r.Floor("S3", "borrowed/owned byte-slice source sites", ownership.BorrowTaint(c.P, r), 10)
 	r.Floor("C07", "obligations", len(r.Obls), 18)
 }
